@@ -249,7 +249,6 @@ func TestC19Conflicts(t *testing.T) {
 	})
 }
 
-
 // Typed inferable columns receive the server's type string too (Results.DecodeResult
 // calls Infer before anything else): Infer must be total for them as well.
 func TestC19TypedInferTotal(t *testing.T) {
